@@ -65,6 +65,20 @@ The obligations are stated on semantics, not on one spelling (rules/C17_helpers.
   * values name a local by how it was made: what forwarding hands to a builder method, what a setter stores, the docker
     exec words and the collections a constructor starts with must not be changed in place afterwards by anything but
     appending calls (R3 arguments-unmodified, R6, R1 first-word, R6 defaults)
+  * (round 5) the words vector may be handed to the sink through a private helper's parameter (`command_with_args(program,
+    words)`, `docker_words(&words)` with `words.iter()`): the vector is the one the caller built, as long as no helper on
+    the way borrows it mutably (H._lift_vec_operand); a closure / loop body whose words come from a private helper that
+    returns a literal (`env_args(k, v) -> [String; 2]`) contributes that literal (H._word_helper_result)
+  * (round 5) R5 "ordered" = the emission order is determined by the contents: an ordered container field, or a local
+    Vec the elements were collected into and that is sorted by the elements / their keys before the loop (or a local
+    BTreeMap / BTreeSet they were collected into); any other in-place change of such a local vector is reported
+    (H.sorted_emission)
+  * (round 5) R4 copy-alive follows the owner of the copy through aggregates (structs / tuples / Ok(..) built around it,
+    destructured again), `?`, and function returns; ownership handed on after the pack run keeps the copy alive; a
+    carrier *struct* conversion (`AppDir { path, _guard }`) wraps its argument when it keeps the argument itself, its
+    other fields are the argument's own path or empty, and the path accessor reads one of them (H.carrier_conversion)
+  * (round 5) when parts of the argv were not understood (R1 unrecognised), missing fields (R2) and a missing image
+    (R1 after-image) are UNPROVEN, not VIOLATED
 """
 from . import C17_helpers as H
 from .lib import iters
@@ -257,7 +271,12 @@ def run(ctx, rep):
                 elif e[0] == 'other':
                     rep.unproven('R1', '%s/unrecognised' % short, it.call.where(), 'argv element of unknown origin: %s' % e[1])
                 prev = e
-        if short in TRAILING:
+        # parts of the argv that the model did not understand (reported above as R1/<struct>/unrecognised) may be what
+        # carries a field / the image: what is then missing is not known to be missing
+        not_understood = any(e[0] == 'other' for it in items for e in it.elems)
+        if short in TRAILING and not_understood and (not seen_image or all(e[0] == 'other' for _, e in after_image_bad)):
+            rep.unproven('R1', short + '/after-image', where, 'whether only the configured command follows the %s is not established: parts of the argv were not understood' % TRAILING[short][0])
+        elif short in TRAILING:
             rep.check(seen_image and not after_image_bad, 'R1', short + '/after-image', where,
                       'nothing but the configured command follows the %s' % TRAILING[short][0],
                       'argv words after the %s become part of the container command: %s' % (TRAILING[short][0], 
@@ -274,7 +293,10 @@ def run(ctx, rep):
         adt = prog.adt(ty)
         fields = [x['name'] for x in adt['variants'][0]['fields']]
         missing = [x for x in fields if x not in used]
-        rep.check(not missing, 'R2', short, where, 'all fields %s reach argv' % fields, 'fields %s of %s never reach the command line' % (missing, short))
+        if missing and not_understood:
+            rep.unproven('R2', short, where, 'fields %s of %s were not seen to reach the command line, but parts of the argv were not understood' % (missing, short))
+        else:
+            rep.check(not missing, 'R2', short, where, 'all fields %s reach argv' % fields, 'fields %s of %s never reach the command line' % (missing, short))
         # R5 (per loop; a collection handed over whole — `args(words)` — is the loop `for w in words { arg(w) }`)
         ORDERED = ('std::collections::BTreeMap<', 'std::collections::BTreeSet<', 'std::vec::Vec<')
         ftys = {x['name']: x['ty'] for x in adt['variants'][0]['fields']}
@@ -285,6 +307,19 @@ def run(ctx, rep):
                 ordered = inner(fty).startswith(ORDERED)
                 shape = len(it.elems) == 2 and it.elems[0][0] == 'const' and it.elems[0][1].startswith('--') and it.elems[1][0] == 'field' and it.elems[1][1] == it.loop
                 word_list = len(it.elems) == 1 and it.elems[0][0] == 'field' and it.elems[0][1] == it.loop and (short, it.loop) in POSITIONAL
+                # the order of emission is determined by the contents: an ordered container, or a local vector the
+                # elements were collected into and that was sorted by their (unique) keys before the loop; such a local
+                # vector must not be changed in place otherwise (the values name it by how it was made)
+                srt = H.sorted_emission(sl, it)
+                if srt is not None and srt[0] == 'bad':
+                    rep.violated('R5', '%s/%s' % (short, it.loop), it.call.where(), srt[1])
+                    continue
+                if srt is not None and srt[0] == 'unknown' and (shape or word_list):
+                    rep.unproven('R5', '%s/%s' % (short, it.loop), it.call.where(), 'loop over a vector collected from %s (%s): %s' % (it.loop, fty, srt[1]))
+                    continue
+                if not ordered and srt is not None and srt[0] == 'ok' and (shape or word_list):
+                    rep.holds('R5', '%s/%s' % (short, it.loop), it.call.where(), 'one %s per element of %s, collected into a vector and %s' % (it.elems[0][1] if shape else 'word', inner(fty).split('<')[0].split('::')[-1], srt[1]))
+                    continue
                 rep.check(ordered and (shape or word_list), 'R5', '%s/%s' % (short, it.loop), it.call.where(),
                           'one %s per element of the ordered %s' % (it.elems[0][1] if shape else 'word', inner(fty).split('<')[0].split('::')[-1]),
                           'loop over %s (%s) emits %s' % (it.loop, fty, it.elems))
@@ -597,7 +632,12 @@ def forwarding(ctx, rep, S):
     # the private copy lives in a temporary directory that is deleted when its owner is dropped: on every normal path
     # the value returned by copy_app (or what it was moved into) must be dropped only after pack has run
     if len(cp) == 1 and run:
+        owns = H.guard_owner_types(prog)
+
         def holders_of(cfn, start):
+            """locals that (may) own the copy's directory guard: what the value is moved into — whole, as a field of a
+            struct / enum payload / tuple that is built around it, out of such a carrier again (`?`, destructuring),
+            or through the std / wrapping calls that hand their argument on (`expect`, `unwrap`, `into`, `?`)"""
             hs, work = set(), [start]
             while work:
                 l = work.pop()
@@ -606,11 +646,14 @@ def forwarding(ctx, rep, S):
                 hs.add(l)
                 for b in cfn.blocks:
                     for st in b['s']:
-                        if st[0] == '=' and len(st[1]) == 1 and st[2]['r'] == 'use' and 'm' in st[2]['o'] and st[2]['o']['m'][0] == l:
+                        if st[0] != '=':
+                            continue
+                        ops = [st[2]['o']] if st[2]['r'] == 'use' else list(st[2].get('ops', [])) if st[2]['r'] == 'agg' else []
+                        if any(isinstance(o, dict) and 'm' in o and o['m'][0] == l for o in ops) and (len(st[1]) > 1 or owns(cfn.local_ty(st[1][0]))):
                             work.append(st[1][0])
                 for c in cfn.calls:
                     if c.dest and len(c.dest) == 1 and c.args and isinstance(c.args[0], dict) and 'm' in c.args[0] and c.args[0]['m'][0] == l \
-                            and len(c.args[0]['m']) == 1 and (c.name or '').endswith(('::expect', '::unwrap', '::into', '::from')) and 'AppDir' in (c.dty or ''):
+                            and len(c.args[0]['m']) == 1 and (c.name or '').endswith(H.HANDING_ON) and owns(c.dty or ''):
                         work.append(c.dest[0])
             return hs
         levels = [l.call if hasattr(l, 'call') else l for l in cp[0].chain] + [cp[0].call]     # outermost .. copy_app call
@@ -621,7 +664,7 @@ def forwarding(ctx, rep, S):
                 break
             hs = holders_of(cfn, lv.dest[0])
             normal = cfn.reachable(0)
-            run_bbs = {(x.chain[0] if x.chain else x.call).bb for x in run if (x.chain[0] if x.chain else x.call).fn.path == cfn.path}
+            run_bbs = {lk.bb for x in run for lk in [l.call if hasattr(l, 'call') else l for l in x.chain] + [x.call] if lk.fn.path == cfn.path}
             for bi_, b in enumerate(cfn.blocks):
                 t = b['t']
                 if t['t'] == 'drop' and bi_ in normal and t['p'][0] in hs and len(t['p']) == 1:
@@ -629,6 +672,12 @@ def forwarding(ctx, rep, S):
                         alive = True        # dropped after pack ran
                     else:
                         early.append('%s in %s' % (cfn.local_name(t['p'][0]) or '_%d' % t['p'][0], cfn.path.split('::')[-1]))
+            # ownership handed on only after (or to) the pack run — the owner moved into the TestContext the test
+            # closure receives, into the call that runs pack — keeps the copy alive through the run just as well
+            for c in cfn.calls:
+                if c.bb in normal and run_bbs and any(isinstance(a, dict) and 'm' in a and len(a['m']) == 1 and a['m'][0] in hs for a in c.args) \
+                        and (c.bb in run_bbs or not (run_bbs & cfn.reachable(c.bb))) and not (c.dest and len(c.dest) == 1 and c.dest[0] in hs):
+                    alive = True
             if 0 not in hs:
                 break       # not handed to the caller: this level decides
         rep.check(alive and not early, 'R4', 'copy-alive', cp[0].where(), 'the temporary copy is kept until pack has run',
@@ -852,6 +901,8 @@ def setters(ctx, rep, cmds, argv_roles, S):
         w = '%s:%d' % (f.file, f.line)
         if v[0] == 'agg' and len(v[3]) == 1 and pc.exact(H.peel(v[3][0][1])) == 0:
             rep.holds('R6', subj, w, 'wraps its argument unchanged as %s' % v[2])
+        elif v[0] == 'agg' and len(v[3]) > 1 and H.carrier_conversion(prog, sl, f, v, pc, m.group(1)) is not None:
+            rep.holds('R6', subj, w, H.carrier_conversion(prog, sl, f, v, pc, m.group(1)))
         elif pc.mentioned(v):
             rep.violated('R6', subj, w, 'the conversion produces %s, not its argument wrapped unchanged' % vstr(v)[:80])
         else:
